@@ -390,7 +390,10 @@ C16_IdsFresh(x) ==
     /\ x.post.oc - x.pre.oc = Len(NewOrders(x)) + Cardinality({id \in x.pre.oc..(x.post.oc - 1) : ~HasOrder(x.post, id)})
 C16_Update_app(x) == Ok(x) /\ Kind(x) = "Store" /\ HasMeta(x.pre, x.ev.data)
 C16_OneInFlight(x) == MetaOf(x.pre, x.ev.data).status = MComplete
-C16_BaseIsLatest(x) == x.ev.cseg[1] = MetaOf(x.pre, x.ev.data).commit
+\* the latest COMMITTED version is the last entry of the model's history (not merely what its commit field says: an
+\* abandoned update must not leave its never-committed id there for the next update to build on)
+LatestCommitted(m) == IF m.commits = <<>> THEN m.commit ELSE m.commits[Len(m.commits)].c
+C16_BaseIsLatest(x) == x.ev.cseg[1] = LatestCommitted(MetaOf(x.pre, x.ev.data))
 C16_HistoryChain(x) ==
     \A i \in 1..Len(x.pre.metas) : LET m == x.pre.metas[i] IN
         HasMeta(x.post, m.data) =>
